@@ -251,7 +251,7 @@ class Ctx:
         m2 = re.search(r"Error: Action property (\S+) is violated", out)
         if m2:
             res.violated = m2.group(1).rstrip(".")
-        if re.search(r"Error: Temporal properties were violated", out):
+        if re.search(r"Error: Temporal propert(ies were|y \S+ was) violated", out):
             res.violated = res.violated or "TemporalProperty"
         if re.search(r"Error: Deadlock reached", out):
             res.violated = res.violated or "Deadlock"
@@ -450,7 +450,7 @@ class Ctx:
 
     # ------------------------------------------------------------ trace validation
     def validate_trace(self, spec_dir, module, trace_file, cfg=None, timeout=600, label=None,
-                       trace_name="trace.ndjson", deque=True, heap=None):
+                       trace_name="trace.ndjson", deque=True, heap=None, extra_args=None):
         """Replay a recorded ndjson trace through Trace_* (POSTCONDITION acceptance).
 
         Returns (accepted, result). A rejected trace is NOT automatically a
@@ -458,7 +458,8 @@ class Ctx:
         n = sum(1 for _ in open(trace_file))
         res = self.tlc(spec_dir, module, cfg=cfg, mode="bfs", workers=1, timeout=timeout,
                        dump_trace=False, label=label or module, expect=("ok", "violation"),
-                       files={trace_name: trace_file}, view_queue=deque, heap=heap)
+                       files={trace_name: trace_file}, view_queue=deque, heap=heap,
+                       extra_args=["-checkpoint", "0"] + list(extra_args or []))
         accepted = res.ok
         if accepted:
             self.trace_events += n
